@@ -450,7 +450,7 @@ func Build(spec WorldSpec) *World {
 		ExtraFirst: spec.ExtraFirst,
 		EContentType: pki.OidLdsSecurityObj, EContent: lso, DigestAlg: spec.DSScheme.Hash, Scheme: spec.DSScheme.scheme(),
 		Signer: w.DSKey, SignerCert: w.DSCert, ExtraCerts: w.Extra, SIDForm: spec.SIDForm, SigningTime: signingTime(spec, w.SignTime),
-		Indefinite: spec.Indefinite, HashNoParams: spec.HashNoParams,
+		Indefinite: spec.Indefinite, IndefMask: int(spec.Seed % 8), HashNoParams: spec.HashNoParams,
 	}
 	if spec.NameVariant && spec.SIDForm != "ski" {
 		sd.SIDIssuer = cscaName.Reordered(true)
